@@ -249,3 +249,189 @@ func runC12repl(cw *caseWriter, tier string, r *rng) {
 	}
 	cw.stat("c12_replicate_sequences", cnt)
 }
+
+// ---------------------------------------------------------------- component 1201: both sides real
+// A real stepper leader and a real stepper follower joined by an in-memory transport: one
+// replicateTo(last) call; compared with Model/Converge.v (cu_run): the leader's nextIndex and match,
+// the number of AppendEntries the follower handled, and the follower's log afterwards.
+func cvExec(cw *caseWriter, tag string, in []uint64) {
+	maxapp, T := in[0], in[1]
+	p := 2
+	readEntries := func() [][4]uint64 {
+		n := int(in[p])
+		p++
+		var es [][4]uint64
+		for i := 0; i < n; i++ {
+			es = append(es, [4]uint64{in[p], in[p+1], in[p+2], in[p+3]})
+			p += 4
+		}
+		return es
+	}
+	esL := readEntries()
+	esF := readEntries()
+	next0 := in[p]
+	mk := func(id uint64, es [][4]uint64) *node {
+		logs, stable, snaps := NewMapLogStore(nil), NewMapStable(), NewSnapStore()
+		for _, e := range es {
+			logs.m[e[0]] = mkLog(e[0], e[1], e[2], e[3])
+		}
+		stable.kvInt["CurrentTerm"] = T
+		n, err := newNode(nodeOpts{id: id, trailing: 100, maxAppend: int(maxapp)}, logs, stable, snaps)
+		if err != nil {
+			return nil
+		}
+		n.r.VerifStartFSM()
+		return n
+	}
+	ld, fl := mk(1, esL), mk(2, esF)
+	if ld == nil || fl == nil {
+		cw.emit(tag, 1201, in, []uint64{0}, false)
+		return
+	}
+	defer ld.shutdown()
+	defer fl.shutdown()
+	ld.r.VerifSetState(raft.Leader)
+	ld.r.VerifSetLeader(addrStr(1), idStr(1))
+	ld.r.VerifSetupLeaderState()
+	ld.r.VerifAddReplState(raft.Server{Suffrage: raft.Voter, ID: idStr(2), Address: addrStr(2)}, time.Now())
+	ld.trans.Connect(addrStr(2), fl.trans)
+	trips := uint64(0)
+	panicked := false
+	runaway := false
+	var lastL uint64
+	for _, e := range esL {
+		if e[0] > lastL {
+			lastL = e[0]
+		}
+	}
+	bound := 4*(next0+lastL) + 8
+	stop := make(chan struct{})
+	done := make(chan struct{})
+	go func() {
+		defer close(done)
+		for {
+			select {
+			case rpc := <-fl.trans.Consumer():
+				func() {
+					defer func() {
+						if x := recover(); x != nil {
+							panicked = true
+							rpc.Respond(nil, errInjected)
+						}
+					}()
+					if _, ok := rpc.Command.(*raft.AppendEntriesRequest); ok {
+						trips++
+						if trips == bound {
+							// far more trips than the bound proved for the model: stop the loop (replicateTo returns at its next check)
+							runaway = true
+							ld.r.VerifStopRepl(idStr(2))
+						}
+					}
+					resp, err := fl.r.VerifProcessRPC(rpc.Command, rpc.Reader)
+					rpc.Respond(resp, err)
+				}()
+			case <-stop:
+				return
+			}
+		}
+	}()
+	var last uint64
+	for _, e := range esL {
+		if e[0] > last {
+			last = e[0]
+		}
+	}
+	ld.r.VerifSetReplNext(idStr(2), next0)
+	ld.r.VerifReplicateTo(idStr(2), last)
+	close(stop)
+	<-done
+	if runaway {
+		cw.emit(tag, 1201, in, []uint64{2, trips}, true)
+		cw.monitor("C12", tag, "replicateto-makes-no-progress", "replicateTo(%d) from nextIndex %d was still sending after %d AppendEntries (the model ends within %d)", lastL, next0, trips, next0+lastL)
+		return
+	}
+	if panicked {
+		cw.emit(tag, 1201, in, []uint64{0}, false)
+		return
+	}
+	next, _ := ld.r.VerifReplNext(idStr(2))
+	es := fl.logs.Entries()
+	obs := []uint64{1, next, trips, uint64(len(es))}
+	for _, l := range es {
+		obs = append(obs, l.Index, l.Term)
+	}
+	cw.emit(tag, 1201, in, obs, trips >= 2)
+	// the property itself: after the call the follower holds the leader's terms at every index
+	byIdx := map[uint64]uint64{}
+	for _, l := range es {
+		byIdx[l.Index] = l.Term
+	}
+	for _, e := range esL {
+		if byIdx[e[0]] != e[1] {
+			cw.monitor("C12", tag, "follower-not-caught-up-after-replicateto", "after replicateTo(%d) the follower holds term %d at index %d, the leader term %d", last, byIdx[e[0]], e[0], e[1])
+			break
+		}
+	}
+}
+
+func runC12converge(cw *caseWriter, tier string, r *rng) {
+	cnt := 400
+	if tier != "quick" {
+		cnt = 8000
+	}
+	genLog := func(n int, maxT uint64) [][4]uint64 {
+		var es [][4]uint64
+		t := uint64(1)
+		for i := 1; i <= n; i++ {
+			if r.chance(1, 3) && t < maxT {
+				t++
+			}
+			es = append(es, [4]uint64{uint64(i), t, 0, uint64(1000*int(t) + i)})
+		}
+		return es
+	}
+	for k := 0; k < cnt; k++ {
+		T := uint64(3 + r.intn(2))
+		nL := 1 + r.intn(9)
+		esL := genLog(nL, T)
+		var esF [][4]uint64
+		switch r.intn(4) {
+		case 0: // a prefix of the leader's log
+			esF = append(esF, esL[:r.intn(nL+1)]...)
+		case 1: // shares a prefix, then diverges (possibly longer)
+			cut := r.intn(nL + 1)
+			esF = append(esF, esL[:cut]...)
+			t := uint64(1)
+			if cut > 0 {
+				t = esL[cut-1][1]
+			}
+			for i := cut + 1; i <= cut+r.intn(6); i++ {
+				if r.chance(1, 3) && t < T {
+					t++
+				}
+				esF = append(esF, [4]uint64{uint64(i), t, 0, uint64(7000 + i)})
+			}
+		default: // an unrelated log
+			esF = genLog(r.intn(12), T)
+		}
+		// the Log Matching premise (real histories satisfy it: C04): where the follower's log
+		// coincides with the leader's term at an index it coincides below that index as well
+		for i := len(esF) - 1; i >= 0; i-- {
+			if i < len(esL) && esF[i][1] == esL[i][1] {
+				copy(esF[:i+1], esL[:i+1])
+				break
+			}
+		}
+		in := []uint64{uint64(1 + r.intn(4)), T, uint64(len(esL))}
+		for _, e := range esL {
+			in = append(in, e[0], e[1], e[2], e[3])
+		}
+		in = append(in, uint64(len(esF)))
+		for _, e := range esF {
+			in = append(in, e[0], e[1], e[2], e[3])
+		}
+		in = append(in, uint64(1+r.intn(nL)))
+		cvExec(cw, cw.tag("V"), in)
+	}
+	cw.stat("c12_converge_pairs", cnt)
+}
